@@ -12,13 +12,15 @@ import (
 )
 
 func c18Pedersen(c *Ctx) {
-	n := 4
 	if c.Thorough() {
-		n = 40
+		c18PedCurve(c, "k256", cK256, 24, 4, 1)
+		c18PedCurve(c, "ed25519", cEd25519, 10, 4, 2)
+		c18PedCurve(c, "bls12381g1", cBLSG1, 6, 4, 3)
+		return
 	}
-	c18PedCurve(c, "k256", cK256, n, 1)
-	c18PedCurve(c, "ed25519", cEd25519, n/2, 2)
-	c18PedCurve(c, "bls12381g1", cBLSG1, n/2, 3)
+	c18PedCurve(c, "k256", cK256, 2, 3, 1)
+	c18PedCurve(c, "ed25519", cEd25519, 1, 2, 2)
+	c18PedCurve(c, "bls12381g1", cBLSG1, 1, 2, 3)
 }
 
 // boundary-heavy scalars: 0, 1, 2, q-1, q-2, (q-1)/2, powers of two, else uniform
@@ -105,12 +107,12 @@ func c18PedDom[P curves.Point[P, F, S], F algebra.FiniteFieldElement[F], S algeb
 			}
 			return out
 		},
-		emitMut: 1,
+		emitMut: 0,
 	}
 }
 
 func c18PedCurve[P curves.Point[P, F, S], F algebra.FiniteFieldElement[F], S algebra.PrimeFieldElement[S]](
-	c *Ctx, name string, curve curves.Curve[P, F, S], cases int, stream uint64,
+	c *Ctx, name string, curve curves.Curve[P, F, S], cases, maxKeys int, stream uint64,
 ) {
 	r := NewRng(c.Seed, 1800+stream)
 	sf := curve.ScalarField()
@@ -205,7 +207,12 @@ func c18PedCurve[P curves.Point[P, F, S], F algebra.FiniteFieldElement[F], S alg
 		keys = append(keys, keyed{pubDom, alts, clean})
 
 		// trapdoor commit = public commit; equivocation opens under the exported key
-		for j := 0; j < 3+cases/2; j++ {
+		lite := maxKeys <= 2
+		nTd := 3 + cases/2
+		if lite {
+			nTd = 2
+		}
+		for j := 0; j < nTd; j++ {
 			m := pubDom.genM(r).(*pedersencom.Message[S])
 			w := pubDom.genW(r).(*pedersencom.Witness[S])
 			var cm *pedersencom.Commitment[P, S]
@@ -249,13 +256,13 @@ func c18PedCurve[P curves.Point[P, F, S], F algebra.FiniteFieldElement[F], S alg
 		}
 		// homomorphic operations through the trapdoor key agree with the public ones
 		var pool []c18Triple
-		for j := 0; j < 3; j++ {
+		for j := 0; j < 2; j++ {
 			if t, ok := tdDom.commitOpen(c, tdDom.genM(r), tdDom.genW(r)); ok {
 				pool = append(pool, t)
 			}
 		}
 		if len(pool) > 0 {
-			tdDom.homSequence(c, r, pool, 4)
+			tdDom.homSequence(c, r, pool, 3)
 		}
 	}
 
@@ -306,6 +313,7 @@ func c18PedCurve[P curves.Point[P, F, S], F algebra.FiniteFieldElement[F], S alg
 		}, "pedersen-h"},
 	}
 	var xk []*pedersencom.CommitmentKey[P, S]
+	seen := map[string]bool{}
 	for _, d := range descs {
 		k, err := pedersencom.ExtractCommitmentKey(d.build(), d.label, G)
 		if err != nil {
@@ -314,7 +322,10 @@ func c18PedCurve[P curves.Point[P, F, S], F algebra.FiniteFieldElement[F], S alg
 			continue
 		}
 		xk = append(xk, k)
-		c.Emit(fmt.Sprintf("xkey ped %s %s", name, pointStr(k.G())+","+pointStr(k.H())), "ok")
+		if !seen[d.id] {
+			c.Emit(fmt.Sprintf("xkey ped %s %s", name, pointStr(k.G())+","+pointStr(k.H())), "ok")
+		}
+		seen[d.id] = true
 	}
 	for i := range descs {
 		for j := i + 1; j < len(descs); j++ {
@@ -338,6 +349,10 @@ func c18PedCurve[P curves.Point[P, F, S], F algebra.FiniteFieldElement[F], S alg
 	}
 
 	// --- commit / open / binding / key changes / homomorphisms
+	if len(keys) > maxKeys {
+		// keep the first trapdoor key and the transcript-derived one
+		keys = []keyed{keys[0], keys[len(keys)-1]}
+	}
 	for ki, k := range keys {
 		d := k.dom
 		var pool []c18Triple
@@ -364,8 +379,15 @@ func c18PedCurve[P curves.Point[P, F, S], F algebra.FiniteFieldElement[F], S alg
 			}
 			pool = append(pool, t)
 			d.bindingCase(c, r, t, c.Thorough() || it == 0)
-			if it < 2 || c.Thorough() {
+			if it < 1 || c.Thorough() {
+				skip := -1
+				if !c.Thorough() {
+					skip = r.IntN(2) // quick: every other changed key
+				}
 				for ai, alt := range k.alts {
+					if skip >= 0 && ai%2 != skip {
+						continue
+					}
 					d.keyCase(c, alt, t, k.clean[ai](t))
 				}
 				// the other keys of this curve
@@ -377,9 +399,11 @@ func c18PedCurve[P curves.Point[P, F, S], F algebra.FiniteFieldElement[F], S alg
 			}
 		}
 		if len(pool) > 0 {
-			steps := 10
+			steps := 8
 			if c.Thorough() {
 				steps = 60
+			} else if maxKeys <= 2 {
+				steps = 5
 			}
 			d.homSequence(c, r, pool, steps)
 		}
